@@ -174,11 +174,24 @@ func argFn(id int) getoptions.ArgCompletionsFn {
 	return nil
 }
 
+// aliasCalls declares the aliases either with one opt.Alias(a, b, ...) call or with one call per
+// alias (the two spellings must be equivalent); the choice is a function of the definition
+func aliasCalls(g *getoptions.GetOpt, name string, aliases []string) []getoptions.ModifyFn {
+	if len(aliases) < 2 || (len(name)+len(aliases[0]))%2 == 1 {
+		return []getoptions.ModifyFn{g.Alias(aliases...)}
+	}
+	fns := []getoptions.ModifyFn{}
+	for _, a := range aliases {
+		fns = append(fns, g.Alias(a))
+	}
+	return fns
+}
+
 func (b *Built) defineOpt(g *getoptions.GetOpt, path string, o *OptDef) {
 	fns := []getoptions.ModifyFn{}
 	// modifier order: alias, then the rest (env after valid values so that Save sees them)
 	if len(o.Aliases) > 0 {
-		fns = append(fns, g.Alias(o.Aliases...))
+		fns = append(fns, aliasCalls(g, o.Name, o.Aliases)...)
 	}
 	if o.Desc != "" {
 		fns = append(fns, g.Description(o.Desc))
@@ -448,7 +461,7 @@ func BuildOps(p *ProgDef, ops []Op) (b *Built, err error) {
 		case "help":
 			fns := []getoptions.ModifyFn{}
 			if len(op.List) > 0 {
-				fns = append(fns, g.Alias(op.List...))
+				fns = append(fns, aliasCalls(g, op.Name, op.List)...)
 			}
 			g.HelpCommand(op.Name, fns...)
 		}
